@@ -132,12 +132,11 @@ contract(
     requires={"non-empty-command": "len(self.cmd) >= 1"},
     locals={"mod": Union(NoneT, Seq(Word), Fn, Dec)},
     loops={"for#1": dict(invariant={
-        "index": "i == _i - 1 or (_i == 0)",
         "collected-in-source-order": "len(self.decorators) == pre(len(self.decorators)) + _i and self.decorators[:pre(len(self.decorators))] == pre(self.decorators) and "
                                      "forall(lambda k: self.cmd[k] in XSH.aliases and "
                                      "self.decorators[pre(len(self.decorators)) + k] == XSH.aliases[self.cmd[k]], 0, _i)",
         "command-untouched": "self.cmd == pre(self.cmd)"},
-        havoc=["self"])},
+        havoc=["self"], final_target=True)},
     let={"added": "len(self.decorators) - old(len(self.decorators))"},
     ensures={
         "leading-decorators-collected-in-order": "added >= 0 and self.decorators[:old(len(self.decorators))] == old(self.decorators) and "
